@@ -8,13 +8,14 @@ enum { A_CALLBACK_AWAIT, A_CALLBACK_AWAIT_ALLOC, A_MAKE_PROMISE, A_MAKE_PROMISE_
        A_CALL_FN_AWAITER, A_CONV_VOID_SOURCE, A_CONV_FREE_CTX, A_COUNT };
 enum { O_VALUE, O_EXC, O_DROP };
 enum { T_BEFORE, T_LATER_SAME_THREAD, T_OTHER_THREAD };
-struct Prog { uint8_t adapter, outcome, timing, conv_throws, yields; uint8_t rearm = 0; uint8_t declines = 0; uint8_t in_coro = 0; };   // in_coro (callback_await forms): the registration is made from inside a running coroutine   // declines (promise-passing converter): it returns without touching the promise it was handed   // rearm (call_fn_future_awaiter): the handler starts a second operation on the same awaiter
+struct Prog { uint8_t adapter, outcome, timing, conv_throws, yields; uint8_t rearm = 0; uint8_t declines = 0; uint8_t in_coro = 0; uint8_t refconv = 0; };   // refconv (value-returning converters with a source argument): the converter returns a REFERENCE (outer future<int &>)   // in_coro (callback_await forms): the registration is made from inside a running coroutine   // declines (promise-passing converter): it returns without touching the promise it was handed   // rearm (call_fn_future_awaiter): the handler starts a second operation on the same awaiter
 
 inline Prog decode(hz::Reader &r) {
     Prog p; p.adapter = (uint8_t)r.mod(A_COUNT); p.outcome = (uint8_t)r.mod(3); p.timing = (uint8_t)r.mod(3); p.conv_throws = (uint8_t)(r.mod(4) == 0); p.yields = (uint8_t)r.mod(4);
     p.rearm = (uint8_t)(r.mod(4) != 0 && p.adapter == A_CALL_FN_AWAITER);
     p.declines = (uint8_t)(r.mod(2) == 1 && p.adapter == A_CONV_PROMISE_PASSING);
     p.in_coro = (uint8_t)(r.mod(2) == 1 && (p.adapter == A_CALLBACK_AWAIT || p.adapter == A_CALLBACK_AWAIT_ALLOC));
+    p.refconv = (uint8_t)(r.mod(2) == 1 && (p.adapter == A_CONV_MEMBER || p.adapter == A_CONV_FREE || p.adapter == A_CONV_FREE_CTX));
     return p;
 }
 inline std::string describe(const Prog &p) {
@@ -24,6 +25,7 @@ inline std::string describe(const Prog &p) {
     static const char *tn[] = {"resolved before registration", "resolved later on the same thread", "resolved concurrently on another thread"};
     hz::Desc d; d << an[p.adapter] << " x " << on[p.outcome] << " x " << tn[p.timing] << (p.conv_throws ? " (converter throws)" : "") << ", yield*" << (unsigned)p.yields;
     if (p.in_coro) d << "; registered from inside a running coroutine (the helper starts after the registering expression has ended: it owns copies of the arguments)";
+    if (p.refconv) d << "; the converter returns a reference to an object it selects (outer future<int &>: it must refer to exactly that object)";
     if (p.declines) d << "; the converter declines: it returns without resolving or moving the promise (the outer future then ends as a broken promise)";
     if (p.rearm) d << "; the completion handler re-arms the awaiter with a second operation (resolved with a value the same way) and keeps working for a while";
     return d.s;
@@ -73,6 +75,9 @@ struct World {
     }
     void fired(int c) { calls++; code = c; done.store(1, std::memory_order_release); }
 
+    // converters returning a reference: they select an object that outlives the conversion
+    int table[4] = {0, 0, 43, 0};
+    int &conv_member_ref(int &src) { if (conv_throws) throw val::TestExc(9); return table[src % 4]; }
     // converters
     int conv_member(int &src) { if (conv_throws) throw val::TestExc(9); return src + 1; }
     cocls::suspend_point<void> conv_passing(int &src, cocls::promise<int> &prom) { if (conv_throws) throw val::TestExc(9); if (p.declines) return {}; return prom(src + 1); }
@@ -96,6 +101,9 @@ struct World {
     }
 };
 inline int conv_free(int &src) { return src + 1; }
+inline int g_table[4] = {0, 0, 43, 0};
+inline int &conv_free_ref(int &src) { return g_table[src % 4]; }
+inline int &conv_free_ctx_ref(int &src, World *w) { if (w->conv_throws) throw val::TestExc(9); return w->table[src % 4]; }
 inline int conv_free_ctx(int &src, World *w) { if (w->conv_throws) throw val::TestExc(9); return src + 1; }
 
 // callback_await called inside a running coroutine, with a temporary, stateful function object as the argument the
@@ -138,6 +146,10 @@ inline void run(hz::Reader &r) {
         cocls::future_conv<&World::conv_passing> cv_passing(&w);
         cocls::future_conv<&World::conv_void> cv_void(&w);
         cocls::future_conv<&conv_free_ctx> cv_free_ctx(&w);
+        cocls::future_conv<&World::conv_member_ref> cv_member_ref(&w);
+        cocls::future_conv<&conv_free_ref> cv_free_ref;
+        cocls::future_conv<&conv_free_ctx_ref> cv_free_ctx_ref(&w);
+        std::unique_ptr<cocls::future<int &>> out_ref; const int *ref_expect = nullptr;
         cocls::call_fn_future_awaiter<&World::on_done> cfa(w);
         std::unique_ptr<cocls::future<int>> out;
         World *pw = &w;
@@ -155,11 +167,11 @@ inline void run(hz::Reader &r) {
                 else w.resolve_int(pr);
             } break;
             case A_DISCARD: cocls::discard([pw] { return pw->source(); }); break;
-            case A_CONV_MEMBER: out.reset(new cocls::future<int>(cv_member << [pw] { return pw->source(); })); break;
-            case A_CONV_FREE: out.reset(new cocls::future<int>(cv_free << [pw] { return pw->source(); })); break;
+            case A_CONV_MEMBER: if (p.refconv) { ref_expect = &w.table[2]; out_ref.reset(new cocls::future<int &>(cv_member_ref << [pw] { return pw->source(); })); break; } out.reset(new cocls::future<int>(cv_member << [pw] { return pw->source(); })); break;
+            case A_CONV_FREE: if (p.refconv) { ref_expect = &g_table[2]; out_ref.reset(new cocls::future<int &>(cv_free_ref << [pw] { return pw->source(); })); break; } out.reset(new cocls::future<int>(cv_free << [pw] { return pw->source(); })); break;
             case A_CONV_PROMISE_PASSING: out.reset(new cocls::future<int>(cv_passing << [pw] { return pw->source(); })); break;
             case A_CONV_VOID_SOURCE: out.reset(new cocls::future<int>(cv_void << [pw] { return pw->vsource(); })); break;
-            case A_CONV_FREE_CTX: out.reset(new cocls::future<int>(cv_free_ctx << [pw] { return pw->source(); })); break;
+            case A_CONV_FREE_CTX: if (p.refconv) { ref_expect = &w.table[2]; out_ref.reset(new cocls::future<int &>(cv_free_ctx_ref << [pw] { return pw->source(); })); break; } out.reset(new cocls::future<int>(cv_free_ctx << [pw] { return pw->source(); })); break;
             default: cfa << [pw] { return pw->source(); }; break;
         }
         hz::upoints(p.yields);
@@ -173,6 +185,13 @@ inline void run(hz::Reader &r) {
             HZ_CHECK(out->ready(), "converter's outer future is still pending after the source was resolved");
             int c = World::guarded([&] { return out->value(); });
             HZ_CHECK(c == expect, "converter delivered %d to the outer future, expected %d (>=0 value, -1 broken promise, 1005 source exception, 1009 converter exception)", c, expect);
+        } else if (out_ref) {
+            HZ_CHECK(out_ref->ready(), "converter's outer future is still pending after the source was resolved");
+            const int *got_addr = nullptr;
+            int c = World::guarded([&] { int &x = out_ref->value(); got_addr = &x; return 43; });
+            HZ_CHECK(c == expect, "reference-returning converter delivered %d to the outer future, expected %d (43 value, -1 broken promise, 1005 source exception, 1009 converter exception)", c, expect);
+            if (c == 43) HZ_CHECK(got_addr == ref_expect, "the outer future<int &> refers to %p, the converter returned a reference to %p (a copy instead of the selected object)", (const void *)got_addr, (const void *)ref_expect);
+            if (c == 43) HZ_CHECK(*got_addr == 43, "the object the outer future refers to holds %d, the selected object holds 43", *got_addr);
         } else if (p.adapter == A_DISCARD) {
             // no callback: completion is observable only through the release of the helper (allocation balance)
         } else {
@@ -188,12 +207,12 @@ inline void run(hz::Reader &r) {
             HZ_CHECK(hz::slot_get(31) == 1, "helper block from the supplied storage was released %ld times (exactly once expected)", hz::slot_get(31));
         }
     }
-    hz::set_class(p.adapter);
+    hz::set_class(p.adapter); hz::count(0, p.refconv);
     hz::set_nontrivial(p.timing == T_OTHER_THREAD ? vrt::stats().switches > 0 : true);
 }
 
 static const char *const class_names[] = {"callback_await", "callback_await_alloc", "make_promise", "make_promise+storage", "discard", "conv:member", "conv:free", "conv:promise-passing", "call_fn_future_awaiter", "conv:void-source", "conv:free+context"};
-static const char *const counter_names[] = {"c0"};
+static const char *const counter_names[] = {"converters_returning_a_reference"};
 } // namespace c18
 
 namespace hz {
